@@ -1350,6 +1350,9 @@ impl<'a, R: FileManager> FrontendCtx<'a, R> {
             return self.error(&anchor, DiagnosticInfoMessage::TypeArgumentCountMismatch);
         }
 
+        // type parameters are lexically scoped: the body of a declaration sees its own parameters only, not the
+        // ones of the type application it happens to be reached from
+        let outer_stack = std::mem::take(&mut self.type_application_stack);
         for (k, v) in type_params.iter().zip(type_args.iter()) {
             self.type_application_stack
                 .push((k.name.sym.to_string(), v.clone()));
@@ -1357,9 +1360,7 @@ impl<'a, R: FileManager> FrontendCtx<'a, R> {
 
         let inferred = self.extract_ts_type_lit_members(&typ.body.body, file.clone());
 
-        for _ in type_params {
-            self.type_application_stack.pop();
-        }
+        self.type_application_stack = outer_stack;
 
         let r = inferred;
 
@@ -1533,13 +1534,14 @@ impl<'a, R: FileManager> FrontendCtx<'a, R> {
                                 .error(anchor, DiagnosticInfoMessage::TypeArgumentCountMismatch);
                         }
 
+                        // type parameters are lexically scoped: the body of a declaration sees its own
+                        // parameters only, not the ones of the type application it happens to be reached from
+                        let outer_stack = std::mem::take(&mut self.type_application_stack);
                         for (param, arg) in type_params.into_iter().zip(type_args.iter()) {
                             self.type_application_stack.push((param, arg.clone()));
                         }
                         let runtype = self.extract_type(&decl.type_ann, address.file.clone());
-                        for _ in type_args {
-                            self.type_application_stack.pop();
-                        }
+                        self.type_application_stack = outer_stack;
                         let runtype = runtype?;
                         Ok(self.with_jsdoc(&address.file, declaration_span, runtype))
                     }
